@@ -1513,6 +1513,13 @@ func (e *Engine) mapComps(h *Heap, t types.Type) (dom, val, card string, ks, vs 
 		return
 	}
 	n := "M." + tname(t)
+	if isRefType(under(t).(*types.Map).Elem()) && ks == "Int" {
+		// the values stored in a map at function entry are pre-existing objects
+		if e.refComp == nil {
+			e.refComp = map[string]bool{}
+		}
+		e.refComp[n+".val"] = true
+	}
 	dom = e.compFull(h, n+".dom", fmt.Sprintf("(Array Int (Array %s Bool))", ks))
 	val = e.compFull(h, n+".val", fmt.Sprintf("(Array Int (Array %s %s))", ks, vs))
 	card = e.compFull(h, n+".card", "(Array Int Int)")
